@@ -74,6 +74,16 @@ type ContractFile struct {
 	Imports   []string // extra imports for extern files
 	Macros    map[string]string
 	Rigid     []string
+	Callers   []CallersDecl
+}
+
+// CallersDecl: //@ callers[PROP,..] PATTERN: f1, f2 - within the package, only the listed functions (and function
+// literals inside them) contain a call site matching PATTERN.
+type CallersDecl struct {
+	Props   []string
+	Pattern string
+	Allowed []string
+	Line    int
 }
 
 var macroRe = regexp.MustCompile(`\$(\w+)`)
@@ -187,6 +197,19 @@ func parseContractFile(path string) (*ContractFile, error) {
 			cf.Contracts = append(cf.Contracts, cur)
 		case "spec":
 			cf.Specs = append(cf.Specs, SpecDecl{Text: rest, SrcFile: curSrcOf(cur, curSrc)})
+		case "callers":
+			i := strings.Index(rest, ":")
+			if i < 0 || label == "" {
+				return nil, fmt.Errorf("%s:%d: callers[PROPS] PATTERN: f1, f2", path, ln)
+			}
+			cd := CallersDecl{Pattern: strings.TrimSpace(rest[:i]), Line: ln, Props: strings.Split(label, "-")}
+			for _, a := range splitTop(rest[i+1:], ',') {
+				if a = strings.TrimSpace(a); a != "" {
+					cd.Allowed = append(cd.Allowed, a)
+				}
+			}
+			cf.Callers = append(cf.Callers, cd)
+			lastList = &cf.Callers[len(cf.Callers)-1].Allowed
 		case "axiom", "lemma":
 			c := &Clause{Kind: word, Label: label, Text: rest, Line: ln, File: path}
 			if word == "axiom" {
@@ -257,6 +280,13 @@ func parseContractFile(path string) (*ContractFile, error) {
 					return nil, fmt.Errorf("%s:%d: count needs NAME PATTERN", path, ln)
 				}
 				cur.Counts = append(cur.Counts, [2]string{f[0], f[1]})
+			case "forbid":
+				// forbid PATTERN: the function has no call site (send, select case) matching the pattern
+				f := strings.Fields(rest)
+				if len(f) != 1 {
+					return nil, fmt.Errorf("%s:%d: forbid needs PATTERN", path, ln)
+				}
+				cur.Counts = append(cur.Counts, [2]string{"!forbid:" + f[0], f[0]})
 			case "inline":
 				cur.Inline = true
 			case "safety":
